@@ -6,9 +6,10 @@ PROP = dict(
                 "read exhaustively over the case's finite universe (contracts incl. 0x1/0x2, written and never-written slots, Sierra/Cairo-0 classes, "
                 "CASM hashes) and compared with the reference snapshot of that block."),
     rule=("rapid state machine store/revert/restart (chains up to 9 blocks, dense reuse of 3-6 contracts and 3-7 slots sharing prefixes, zero writes, "
-          "same-value rewrites, replacements, migrations); non-trivial = a slot written in >= 2 retained blocks, or chain extended after a revert; "
+          "same-value rewrites, replacements, migrations); in a third of the stores readers of the current head block (by number and by hash) are "
+          "opened before the store and re-read after it; non-trivial = a slot written in >= 2 retained blocks, or chain extended after a revert; "
           "distinct = SHA-256 of the rendered history (diffs included)."),
-    assumptions=["storage read on a contract that does not exist at the block may be 'not found' or zero (implementations legitimately differ)",
+    assumptions=["the HEAD reader may answer zero for a storage read of a contract that does not exist (existing design, RPC compensates); readers of a given block (by number or hash) must report not found",
                  "reference model validated on mainnet fixtures (C01)"],
     runs=[dict(run="^Test(Prop|Known)")],
 )
